@@ -360,6 +360,20 @@ def c07_extra(rep, rnd, first_id):
         start = codec.start_for(rnd, scn)
         out.append(codec.parse_record(first_id + len(out), scn, codec.gen_input(rnd, start, maxlen=40), start, rnd.random() < 0.5, both=True))
     out += anon_context_family(rnd, first_id + len(out), 400 if rep.tier == "thorough" else 60)
+    # x[EOF] takes everything that is left: whatever follows it finds the end of the input - also when the last element is partial
+    # (the array itself may then raise or not, but no later member may be made of the left-over bytes)
+    u8 = A.t_int("uint8")
+    pair = A.t_struct("ep", [A.field("a", u8), A.field("b", A.t_int("uint16"))])
+    e24 = A.t_enum("EE", "uint24", [("A", 1), ("B", 2)])
+    for _ in range(300 if rep.tier == "thorough" else 50):
+        mode = codec.gen_mode(rnd)
+        elem = rnd.choice([A.t_int("uint24"), A.t_int("int48"), pair, e24, A.t_arr(u8, A.L_fixed(3)), A.t_int("uint16"), A.t_int("int128"), A.t_wchar()])
+        inner = A.t_struct("eo", [A.field("h", u8), A.field("x", A.t_arr(elem, A.L_EOF))])
+        t = A.t_struct("EOFT", [A.field("i", inner), A.field("tail", u8), A.field("more", A.t_int("uint16"))])
+        scn = {"type": t, "mode": dict(mode, align=False), "consts": {}, "defs": A.render(t, {})}
+        start = codec.start_for(rnd, scn)
+        data = bytes(rnd.randrange(256) for _ in range(start)) + bytes(rnd.randrange(1, 256) for _ in range(rnd.randrange(0, 24)))
+        out.append(codec.parse_record(first_id + len(out), scn, data, start, rnd.random() < 0.5, both=True))
     return out
 
 
